@@ -133,10 +133,13 @@ CLAIMED.update({
         'design': '§7 C08',
     },
     'C13': {
-        'text': ('Lean 4 on the character state machine: any number of descriptors (all kinds, labels, orders 0-4 through the '
-                 'symbol before the bracket) written after an atom are reported on that atom in order with their order, the '
-                 'clean text keeps none of their symbols, and the text that follows is processed from exactly that state; '
-                 'test-suite strings by kernel evaluation. Position-generic statement (after any atom, ring digits, branch '
+        'text': ('Lean 4 on the character state machine, string level: for every chain of plain atoms (any length), each '
+                 'followed by any number of written descriptors (all kinds, labels, orders 0-4 through the symbol before the '
+                 'bracket), strip returns exactly the atoms as clean text and a dictionary that holds, per atom index, exactly '
+                 'the descriptors written after that atom in order with their order digit, no marks, no annotations '
+                 '(C13_chain, with exact loop-iteration accounting); the single-atom statement with arbitrary following text '
+                 '(C13_descriptors_after_atom); test-suite strings by kernel evaluation. Branches, ring digits, bracket atoms '
+                 'with annotations, slash marks: position-generic statement (after any atom, ring digits, branch '
                  'closings, annotations) validated by exact correspondence on generated and mutated fragment texts + the '
                  'builder\'s expected 4-tuple (partial).'),
         'note': READ_NOTE,
